@@ -67,7 +67,10 @@ pub fn gen_round(r: &mut Prng, k: usize, first: u8, max_n: u8, rtt_class: u64, n
             } else {
                 None
             };
-            ProbeStatus::Complete(synth::complete(p, host, sent + rtt, kind, tos, e, a, ext))
+            // (now and then the wall clock is stepped back while the probe is in flight: the
+            // response is stamped earlier than the probe - a round-trip time of zero, not an error)
+            let received = if r.chance(1, 40) { sent - Duration::from_millis(r.range(1, 5_000)) } else { sent + rtt };
+            ProbeStatus::Complete(synth::complete(p, host, received, kind, tos, e, a, ext))
         };
         probes.push(st);
         issued += 1;
@@ -83,14 +86,19 @@ pub fn gen_round(r: &mut Prng, k: usize, first: u8, max_n: u8, rtt_class: u64, n
 }
 
 fn history(seed: u64, i: usize, tier: Tier) -> Outcome {
+    history_focus(seed, i, tier, None)
+}
+
+/// The same histories judged for one getter only (`focus`): used by the property that owns it.
+pub fn history_focus(seed: u64, i: usize, tier: Tier, focus: Option<&'static str>) -> Outcome {
     let mut o = Outcome::default();
     let mut r = Prng::new(seed ^ (i as u64).wrapping_mul(0x9E37_79B9_7F4A_7C15) ^ 0xC05);
     let max_samples = *r.pick(&[0usize, 1, 2, 10, 256]);
     let first = *r.pick(&[1u8, 1, 1, 2, 9, 100, 200, 254]);
     let max_n = *r.pick(&[1u8, 5, 30]);
     let rtt_class = r.below(5);
-    let nat = r.chance(1, 3);
-    let long = tier == Tier::Thorough && i % 2000 == 0;
+    let nat = r.chance(1, 3) || focus == Some("last_nat_status");
+    let long = focus.is_none() && tier == Tier::Thorough && i % 2000 == 0;
     let rounds = if long { 100_000 } else { r.range(1, tier.pick(50, 400)) as usize };
     let site = format!("samples{max_samples}/first{first}/rtt{rtt_class}");
     let replay = json!({"how": format!("vcheck C05 --seed {seed} --only {i}"), "scenario": i, "max_samples": max_samples, "first_ttl": first, "rounds": rounds});
@@ -117,6 +125,7 @@ fn history(seed: u64, i: usize, tier: Tier) -> Outcome {
             let cmp = guarded(|| compare_flow(&state, State::default_flow_id(), &reference, max_samples));
             match cmp {
                 Ok(diffs) => {
+                    let diffs: Vec<_> = diffs.into_iter().filter(|(f, _)| focus.is_none_or(|x| *f == x)).collect();
                     if let Some((f, d)) = diffs.first() {
                         let clause = if f.starts_with("law:") { "conservation_laws" } else { "state_equals_reaggregation" };
                         o.violate(clause, format!("{f}"), format!("after round {k}: {d} (+{} more fields: {:?})", diffs.len() - 1, diffs.iter().skip(1).take(5).map(|x| x.0).collect::<Vec<_>>()), replay.clone());
@@ -162,7 +171,7 @@ fn history(seed: u64, i: usize, tier: Tier) -> Outcome {
 
 pub fn run(tier: Tier, seed: u64, only: Option<usize>) -> i32 {
     let mut rep = Report::new("C05", "exploration", tier, seed);
-    rep.rule = "history = 1..400 synthetic rounds (thorough: plus histories of 100 000 rounds) through the public State::update_from_round, each round shaped like a strategy round: ttl ascending from first-ttl in {1,2,9,100,200,254}, up to 30 probes, mixes of complete / awaited / failed / skipped(+re-issue) (a published round never contains not-sent slots), RTT classes {0, ns..2ms, 0.1..300ms, 0..10s, 0..5s ns-granular}, several responders per hop, tos, extensions, Dublin checksums with NAT-like changes, sample limits {0,1,2,10,256}; after every round (long histories: every 9973rd) every getter of every hop is compared with a non-incremental recomputation and the conservation laws are asserted separately; the rounds published by the real strategy are compared the same way in C01; distinct by (sample limit, first ttl, RTT class, round size, NAT, length)".into();
+    rep.rule = "history = 1..400 synthetic rounds (thorough: plus histories of 100 000 rounds) through the public State::update_from_round, each round shaped like a strategy round: ttl ascending from first-ttl in {1,2,9,100,200,254}, up to 30 probes, mixes of complete / awaited / failed / skipped(+re-issue) (a published round never contains not-sent slots), RTT classes {0, ns..2ms, 0.1..300ms, 0..10s, 0..5s ns-granular} and one response in 40 stamped before its probe (the wall clock stepped back), several responders per hop, tos, extensions, Dublin checksums with NAT-like changes, sample limits {0,1,2,10,256}; after every round (long histories: every 9973rd) every getter of every hop is compared with a non-incremental recomputation and the conservation laws are asserted separately; the rounds published by the real strategy are compared the same way in C01; distinct by (sample limit, first ttl, RTT class, round size, NAT, length)".into();
     rep.assumptions = vec![
         "loss classification follows RELEASES.md 0.12 (forward loss needs at least one later probe in the round and every later probe lost; backward loss needs an earlier forward loss); the jitter series starts from rtt_0 := 0 as pinned by the repository's own scenario files".into(),
         "floating point fields are compared with 2e-6 ms absolute (1ns rounding of stored durations) or 1e-9 relative tolerance".into(),
